@@ -58,6 +58,13 @@ def streams(tier, seed):
             out.append([r, op_simple("interp", r, dim=dim, new_coord=[str(x) for x in c])])
             fine = sorted(set(c + [(c[i] + c[i + 1]) / 2 for i in range(n - 1)] + [c[0] + Fraction(1, 8)]))
             out.append([r, op_simple("interp", r, dim=dim, new_coord=[str(x) for x in fine])])
+            # the same on a NON-uniform source axis (quadratically spaced): identity on its own coordinates, exact midpoints
+            rq = dict(r, coords=[list(cc_) for cc_ in r["coords"]])
+            cq = [Fraction(i * i + 2 * i, 4) + Fraction(1, 2) for i in range(n)]
+            rq["coords"][k] = [str(x) for x in cq]
+            out.append([rq, op_simple("interp", rq, dim=dim, new_coord=[str(x) for x in cq])])
+            fineq = sorted(set(cq + [(cq[i] + cq[i + 1]) / 2 for i in range(n - 1)]))
+            out.append([rq, op_simple("interp", rq, dim=dim, new_coord=[str(x) for x in fineq])])
             for s in (range(n) if tier == "thorough" else rng.sample(range(n), 3)):
                 out.append([r, op_simple("left_shift", r, dim=dim, n=s)])
             # ndalign: integer peaks, every trace a circular shift of one shape
